@@ -531,6 +531,20 @@ class Scanner:
                 if v[0] != 'region' or iv is None or iv[0] != 'int':
                     raise Unsupported('index projection on %r by %r' % (v[:1], iv))
                 cur = ('val', ('byte', v[1] + iv[1]))
+            elif isinstance(p, dict) and 'sub_from' in p:
+                # slice pattern `[a, b, rest @ ..]` / `[head @ .., z]`: the sub-slice from `sub_from` to `sub_to` (counted from the end when from_end)
+                v = self.load(st, cur[1]) if cur[0] == 'loc' else cur[1]
+                if v[0] != 'region':
+                    raise Unsupported('subslice projection on %r' % (v[:1],))
+                if p.get('from_end'):
+                    if p.get('sub_to', 0) != 0:
+                        if v[2] == 'END':
+                            raise Unsupported('subslice that ends before the end of an open-ended slice')
+                        cur = ('val', ('region', v[1] + p['sub_from'], v[2] - p['sub_to']))
+                    else:
+                        cur = ('val', ('region', v[1] + p['sub_from'], v[2]))
+                else:
+                    cur = ('val', ('region', v[1] + p['sub_from'], v[1] + p['sub_to']))
             elif isinstance(p, dict) and 'cidx' in p and not p.get('from_end'):
                 v = self.load(st, cur[1]) if cur[0] == 'loc' else cur[1]
                 if v[0] != 'region':
@@ -841,6 +855,16 @@ class Scanner:
                 if self.int_cmp(st, 'Eq', ln, ('int', 0)):
                     return ('value', NONE)
                 return ('value', some(('tuple', (('byteref', s[1]), ('slice', s[1] + 1, s[2])))))
+            if name == 'strip_prefix' and len(args) == 2:
+                nd = self.strip_ref(st, args[1])
+                if nd[0] == 'cbytes':
+                    hit = True
+                    for k_, bt in enumerate(nd[1]):
+                        i_ = s[1] + k_
+                        if (s[2] != 'END' and i_ >= s[2]) or (s[2] == 'END' and not self.len_gt(st, i_)) or not self.byte_decide(st, i_, frozenset([bt])):
+                            hit = False
+                            break
+                    return ('value', some(('slice', s[1] + len(nd[1]), s[2])) if hit else NONE)
             if name == 'starts_with' and len(args) == 2:
                 nd = self.strip_ref(st, args[1])
                 if nd[0] == 'cbytes':
